@@ -323,6 +323,36 @@ func (g *Gen) NextBlock(w *World, bi int) (BlockSpec, bool) {
 	}
 	g.simTime += b.DtMs / 1000
 	ntx := g.R.Intn(g.P.MaxTx + 1)
+	// streams: aim the block time at a stream's advertised deposit-zero time (just before, at, just
+	// after, also by less than a second) and release in that block
+	if (g.Prop == "C10" || g.Prop == "C11" || g.Prop == "C12" || g.Prop == "C18") && !inTail && g.pct(12) {
+		if keys := w.M.Str.keys(); len(keys) > 0 {
+			st := w.M.Str.Streams[pick(g.R, keys)]
+			if !st.ZeroOverflow && st.Zero.After(w.Now) {
+				off := pick(g.R, []int64{-1500, -1000, -999, -600, -1, 0, 1, 400, 1000})
+				target := st.Zero.Sub(w.Now).Milliseconds() + off
+				if st.Zero.Sub(w.Now) < 100*365*24*3600*1e9 && target >= 1 && g.simTime+target/1000 < 200000000000 {
+					g.simTime -= b.DtMs / 1000
+					b.DtMs = target
+					g.simTime += b.DtMs / 1000
+					s, r := g.addrIdx(w, st.Sender), g.addrIdx(w, st.Receiver)
+					var m MsgSpec
+					switch g.R.Intn(4) {
+					case 0, 1:
+						m = MsgSpec{T: "str.claim", A: r, B: s}
+					case 2:
+						m = MsgSpec{T: "str.cancel", A: s, B: r}
+					default:
+						m = MsgSpec{T: "str.update", A: s, B: r, N: pick(g.R, []uint64{1, 2, 10, 1000})}
+					}
+					if m.A >= 0 {
+						b.Txs = append(b.Txs, g.wrap(w, m))
+						w.Fault("time.aimed_at_deposit_zero")
+					}
+				}
+			}
+		}
+	}
 	// votes for pending proposals first
 	for _, id := range sortedU64(w.M.Gov.Pending) {
 		if !g.voted[id] {
